@@ -491,7 +491,7 @@ where
     fn split_text<'b>(&'slf self, delimiter: &'b str) -> SplitTextIter<'store, 'b> {
         SplitTextIter {
             resource: self.resource(),
-            iter: self.store().text().split(delimiter),
+            iter: self.text().split(delimiter),
             byteoffset: self
                 .subslice_utf8_offset(self.text())
                 .expect("subslice must succeed for split_text"),
@@ -679,7 +679,7 @@ where
     fn split_text<'b>(&'slf self, delimiter: &'b str) -> SplitTextIter<'store, 'b> {
         SplitTextIter {
             resource: self.resource(),
-            iter: self.store().text().split(delimiter),
+            iter: self.text().split(delimiter),
             byteoffset: self
                 .subslice_utf8_offset(self.text())
                 .expect("subslice must succeed for split_text"),
